@@ -353,6 +353,28 @@ def run_long(rec, tier, seed):
             if not same(got[:, pos], ref_rows[i]):
                 rec.violation("tomtom:result_depends_on_query_container", dict(case, query_position=pos), expected=ref_rows[i][0][:4], observed=got[:, pos][0][:4])
                 break
+    # three-step histories on ONE thread with equal query lengths: every [a, b, a] over six queries of length 4 (and of length 7)
+    for Lq in (4, 7):
+        Q6 = [pat(Lq, k + 1) for k in range(6)]
+        Tq = Ts[:60]
+        for kw in (dict(), dict(reverse_complement=False), dict(n_score_bins=50)):
+            al = [torch.stack(list(TT.tomtom([Q], Tq, n_jobs=1, **kw))).numpy()[:, 0] for Q in Q6]
+            for a_ in range(6):
+                for b_ in range(6):
+                    if a_ == b_:
+                        continue
+                    st, res = call(TT.tomtom, [Q6[a_], Q6[b_], Q6[a_]], Tq, n_jobs=1, **kw)
+                    rec.case(1, 1)
+                    rec.count("traces_validated_against_impl")
+                    case = dict(fn="tomtom", queries="[a, b, a] of length %d" % Lq, a=a_, b=b_, n_jobs=1, kwargs={k: str(v) for k, v in kw.items()}, generator="pat(L,k)")
+                    if st != "ok":
+                        rec.violation("tomtom:raises", case, observed=res)
+                        continue
+                    got = torch.stack(list(res)).numpy()
+                    for pos, i in enumerate((a_, b_, a_)):
+                        if not same(got[:, pos], al[i]):
+                            rec.violation("tomtom:result_depends_on_history:equal_length_triples", dict(case, query_position=pos), expected=al[i][0][:4], observed=got[:, pos][0][:4])
+                            break
     # more than 1024 queries in one call: row i is still the result of query i alone
     Qbig = [pat(1 + (k * 7) % 6, k) for k in range(1100)]
     Tsm = Ts[:12]
